@@ -41,7 +41,7 @@ HISTORY_TAGS = {
 
 PROPS = {
     "C07": {
-        "runs": [("C07", "std", "normal"), ("C07", "rel", "normal"), ("C07", "nostd", "normal"), ("C07", "nostdrel", "normal")],
+        "runs": [("C07", "std", "normal"), ("XT", "miri_i686", "normal", "thorough"), ("XT", "miri_s390x", "normal", "thorough"), ("C07", "rel", "normal"), ("C07", "nostd", "normal"), ("C07", "nostdrel", "normal")],
         "rule": "scanner histories include Default-constructed scanners (op 8). tag 70: every (channel, controller number) pair x boundary/seeded values (thorough: all 16384 values) through new/getters/to_short_messages for RawShortMessage and StructuredShortMessage; tag 71: seeded messages fed as encoded pairs after a seeded random prior history (any implementor kind). distinct = distinct input vectors; non-trivial = the observation contains a value other than None",
         "exhaustive": {"thorough": True},
         "assumptions": ["restricted integers are built through the checked public constructors",
@@ -57,7 +57,7 @@ PROPS = {
 
 PROPS.update({
     "C09": {
-        "runs": [("C09", "std", "normal"), ("C09", "rel", "normal"), ("C09", "nostd", "normal")],
+        "runs": [("C09", "std", "normal"), ("XT", "miri_i686", "normal", "thorough"), ("XT", "miri_s390x", "normal", "thorough"), ("C09", "rel", "normal"), ("C09", "nostd", "normal")],
         "rule": "tag 90: for each of the 8 constructors and both byte orders: all 16 channels, a sweep of the parameter numbers (thorough: all 16384) and of the values with the other arguments on boundary/seeded values, plus seeded random tuples; observation = getters, 4 slots for RawShortMessage and StructuredShortMessage, and the array conversion. distinct = distinct argument tuples; every record is non-trivial (a message is always built)",
         "exhaustive": {},
         "assumptions": ["arguments are valid restricted integers (built through the checked constructors)"],
@@ -114,7 +114,7 @@ PROPS.update({
 
 PROPS.update({
     "C01": {
-        "runs": [("C01", "std", "normal"), ("C01", "rel", "normal"), ("C01", "nostd", "normal")],
+        "runs": [("C01", "std", "normal"), ("XT", "miri_i686", "normal", "thorough"), ("XT", "miri_s390x", "normal", "thorough"), ("C01", "rel", "normal"), ("C01", "nostd", "normal")],
         "rule": "tag 10: from_bytes for 4 factory implementations (raw, structured, two harness-defined third-party types) on all 256 status bytes x boundary data bytes, every type x all values of one data byte, seeded random triples (thorough: all 256x128x128 triples); tag 11: StructuredShortMessage values built through the public enum (all variants; quick: full sweep of one field with the others on boundaries, all 120 quarter frames, all 16384 song positions; thorough: every value); tag 12: all 128 quarter-frame bytes; tag 13: all 256 type codes",
         "exhaustive": {"thorough": True},
         "assumptions": ["data bytes are valid U7 values"],
@@ -132,7 +132,7 @@ PROPS.update({
         "assumptions": [],
     },
     "C06": {
-        "runs": [("C06", "std", "normal"), ("C06", "rel", "normal"), ("C06", "nostd", "normal"), ("C06", "nostdrel", "normal")],
+        "runs": [("C06", "std", "normal"), ("XT", "miri_i686", "normal", "thorough"), ("XT", "miri_s390x", "normal", "thorough"), ("C06", "rel", "normal"), ("C06", "nostd", "normal"), ("C06", "nostdrel", "normal")],
         "rule": "tag 60: the 19 named constructors for RawShortMessage and StructuredShortMessage (quick: full sweep per argument with the others on boundaries; thorough: every argument tuple), all 16384 14-bit values x channels (quick: stride 11), all 128 quarter-frame bytes; tag 61: 23 types x 3 generic constructors x channels x boundary data; tag 62: test_util shorthands with in- and out-of-range primitives",
         "exhaustive": {"thorough": True},
         "assumptions": [],
@@ -141,13 +141,15 @@ PROPS.update({
 
 PROPS.update({
     "C04": {
-        "runs": [("C04", "std", "normal"), ("C04", "rel", "normal"), ("C04", "nostd", "normal"), ("C04", "nostdrel", "normal")],
+        "runs": [("C04", "std", "normal"), ("C04", "rel", "normal"), ("C04", "nostd", "normal"), ("C04", "nostdrel", "normal"),
+                 # values obtained by deserialization are values of the safe public API too
+                 ("C19", "std", "normal"), ("C19", "nostdserde", "normal")],
         "rule": "two builds of the harness: default features (+serde) and --no-default-features. tag 40: every conversion impl of the regenerated table (harness dispatch generated from it) on every value of 8/16-bit and newtype sources, and on boundaries, 2^k +-1, type min/max and seeded random values of 32/64/128-bit and pointer-sized sources; only in-range/failed/panicked is observed; tag 41: T::new on every value of the representation type, in both configurations; tag 42: all strings over {0,1,2,5,9,+,-,space,a} up to length 4 (thorough 5) plus boundary and leading-zero numerals; tag 43: MIN/MAX/Default; tags 62-64: the test_util scalar helpers on every value of their argument type and the test_util shorthands with in- and out-of-range primitives (checked constructors too). The conversion table is what rustc sees (autoref probes over the 18x18 grid of numeric types), not a list parsed from the source",
         "exhaustive": {},
         "assumptions": ["usize/isize are 64-bit"],
     },
     "C05": {
-        "runs": [("C05", "std", "normal"), ("C05", "rel", "normal"), ("C05", "nostd", "normal"), ("C05", "nostdrel", "normal")],
+        "runs": [("C05", "std", "normal"), ("XT", "miri_i686", "normal", "thorough"), ("XT", "miri_s390x", "normal", "thorough"), ("C05", "rel", "normal"), ("C05", "nostd", "normal"), ("C05", "nostdrel", "normal")],
         "rule": "tag 50: same conversion inputs as C04 with exact result values; tag 42: parsing alphabet as C04; tag 51: Display of every value of every type (formatted into a stack buffer) and parse-back; tag 52: equality/ordering/hash-equality for all pairs of the <=7-bit types and boundaries+neighbours+seeded pairs for U14; tag 43: MIN/MAX/Default",
         "exhaustive": {},
         "assumptions": ["usize/isize are 64-bit"],
